@@ -20,6 +20,10 @@ import torch.nn.functional as F
 
 
 # --------------------------------------------------------------------------- glue modules (no parameters)
+# eps of the normalisation layers in generated architectures: the default, and values large / small enough that a sampler
+# which normalises with another eps than the layer's is off by far more than the comparison tolerance
+NORM_EPS = [1e-5, 1e-5, 1e-2, 0.3, 1e-12]
+
 class Act(nn.Module):
     def __init__(self, f):
         super().__init__()
@@ -41,8 +45,13 @@ class TransposeHW(nn.Module):
         return x.transpose(-1, -2)
 
 
+_CL_IDENTITY = [False]   # reference self-check: with the layout conversion switched off the function is the same
+
+
 class ChannelsLast(nn.Module):
     def forward(self, x):
+        if _CL_IDENTITY[0]:
+            return x
         return x.contiguous(memory_format=torch.channels_last if x.dim() == 4 else torch.channels_last_3d)
 
 
@@ -362,8 +371,25 @@ def per_sample_grads_gsm(spec):
     return gs, gr, B
 
 
-def micro_batch_grads(spec):
+def micro_batch_grads(spec, _selfcheck=True):
     """each sample alone through the unwrapped model, same cotangent slice; returns name -> [B,*shape]"""
+    if _selfcheck and any(l.get("t") == "ChannelsLast" for l in spec.get("layers", [])):
+        # a memory-layout conversion does not change the function: plain torch must give the same micro-batch gradients
+        # with and without it.  It does not for instance_norm / group_norm backward fed a channels_last cotangent (torch 2.x,
+        # CPU) - at B = 1 the batch-vs-micro-batch self-check below cannot see that, this one can.  Outside the trusted base.
+        _CL_IDENTITY[0] = True
+        try:
+            ref2 = micro_batch_grads(spec, _selfcheck=False)
+        finally:
+            _CL_IDENTITY[0] = False
+        ref1 = micro_batch_grads(spec, _selfcheck=False)
+        for n, a in ref1[0].items():
+            b = ref2[0].get(n)
+            if a is None or b is None:
+                continue
+            if a.shape != b.shape or not bool(((a - b).abs() <= 1e-8 * max(1.0, float(b.abs().max()) if b.numel() else 1.0)).all()):
+                raise Rejected(f"reference inconsistent: plain-torch gradient of {n} changes when a memory-layout conversion is switched off")
+        return ref1
     model = build_model(spec)
     inputs = make_input(spec)
     B = batch_size(spec, inputs)
@@ -669,7 +695,7 @@ def gen_spec(rng, allow_defects=True, mode=None):
             L = {"t": t, "block": {"t": "Linear", "in": cur[-1], "out": cur[-1], "bias": rng.random() < 0.7}}
         elif t == "LayerNorm":
             nd = 1 if len(cur) == 1 or not bf or rng.random() < 0.7 else 2
-            L = {"t": t, "nshape": cur[-nd:], "bias": (not (allow_defects and rng.random() < 0.15))}
+            L = {"t": t, "nshape": cur[-nd:], "bias": (not (allow_defects and rng.random() < 0.15)), "eps": rng.choice(NORM_EPS)}
         elif t == "Act":
             L = {"t": t, "f": rng.choice(["tanh", "sigmoid", "softplus", "gelu"])}
         elif t in ("Affine", "Bilinear2", "SubLinear"):
@@ -699,13 +725,13 @@ def gen_spec(rng, allow_defects=True, mode=None):
             cur, k = [math.prod(cur)], "vec"
         elif t == "GroupNorm":
             gs = [g for g in (1, 2, 4) if cur[0] % g == 0]
-            L = {"t": t, "groups": rng.choice(gs), "C": cur[0]}
+            L = {"t": t, "groups": rng.choice(gs), "C": cur[0], "eps": rng.choice(NORM_EPS)}
             if math.prod(cur) // L["groups"] < 2:
                 continue
         elif t == "InstanceNorm":
             if math.prod(cur[1:]) < 2:
                 continue
-            L = {"t": t, "nd": len(cur) - 1, "C": cur[0]}
+            L = {"t": t, "nd": len(cur) - 1, "C": cur[0], "eps": rng.choice(NORM_EPS)}
         elif t == "Conv":
             r = _pick_conv(rng, len(cur) - 1, cur[0], cur[1:], allow_defects)
             if r is None:
